@@ -646,9 +646,10 @@ example :
 
 /-! ### Cycles cut short by an exception: results the framework cannot deliver, patches that do not arrive
 
-`process_changing_cause` delivers the handlers' results into the patch BEFORE it notes in the memory which resuming
-handlers have finished, and the patch is sent AFTER that (`Model/C14_Results.lean`). The at-most-once clause survives
-every failure after the bookkeeping — whatever the results, whatever is lost — and exactly the failures before it break it. -/
+`process_changing_cause` notes in the memory which resuming handlers have finished, THEN delivers the handlers' results
+into the patch (since /repo 4eb6f10; the other way round before: finding F11), and the patch is sent after that
+(`Model/C14_Results.lean`). The at-most-once clause survives every failure after the noting — whatever the results,
+whatever is lost; with the old order exactly the failures of the delivery broke it. -/
 
 /-- After the step in which a resuming handler reached a final outcome, it is settled in the memory that step leaves. -/
 theorem settled_after_completion (decls : List Decl) (d : Decl) (hd : d ∈ decls)
@@ -673,36 +674,61 @@ theorem settled_after_completion (decls : List Decl) (d : Decl) (hd : d ∈ decl
     simp only [isInitial, List.any_eq_true]
     exact ⟨d, hd, by simp [hres d hd rfl]⟩
 
-/-- A settled handler stays settled through a cycle however it ends (through, patch lost, cut before the bookkeeping). -/
-theorem settled_preserved_with (raises : List ResultShape → Bool) (decls : List Decl) (i : Id) (m : Option Mem)
+/-- A settled handler stays settled through a cycle however it ends (through, patch lost, cut in the delivery of the
+    results — in either order of the bookkeeping). -/
+theorem settled_preserved_with (old : Bool) (raises : List ResultShape → Bool) (decls : List Decl) (i : Id) (m : Option Mem)
     (hs : Settled i m) (P : Store) (x : EventR) (hde : x.e.deleted = false) :
-    Settled i (stepWith raises decls m P x.e x.rs x.patchLost).mem := by
-  rcases stepWith_mem raises decls m P x.e x.rs x.patchLost with h | ⟨h, _⟩
+    Settled i (stepWith old raises decls m P x.e x.rs x.patchLost).mem := by
+  rcases stepWith_mem old raises decls m P x.e x.rs x.patchLost with h | ⟨h, _, _⟩
   · rw [h]; exact settled_preserved decls i m hs P x.e hde
   · rw [h]
     obtain ⟨mem, rfl, hor⟩ := hs
-    simp only [hde, Bool.false_eq_true, if_false]
-    exact ⟨_, rfl, by rw [recall_some_fullyHandled, recall_some_resumed]; exact hor⟩
+    cases old
+    · simp only [Bool.false_eq_true, if_false, cutAtDelivery_mem, hde]
+      refine ⟨_, rfl, ?_⟩
+      rcases hor with hf | hr
+      · left; simp [recall_some_fullyHandled, hf]
+      · right; simp [recall_some_resumed, hr]
+    · simp only [if_true, cutBeforeMemoryOld, hde, Bool.false_eq_true, if_false]
+      exact ⟨_, rfl, by rw [recall_some_fullyHandled, recall_some_resumed]; exact hor⟩
 
-/-- THE SECOND CLAUSE WITH FAILING CYCLES, unguarded but for one hypothesis: if the delivery of the results of the pass
-    in which a resume handler reached its final outcome did not raise (`hok`), the handler is never invoked again for this
-    object in this process — whatever the handlers return later, whichever later cycles are cut (before or after the
-    bookkeeping), whichever patches are lost (the completing pass's own included: `x.patchLost`, `wireRaises x.rs`).
-    For ANY rule `raises` of what makes the delivery raise. -/
-theorem completed_never_again_results (raises : List ResultShape → Bool) (decls : List Decl) (d : Decl) (hd : d ∈ decls)
+/-- After the pass in which a resuming handler reached a final outcome it is settled — ALSO when the delivery of the
+    pass's results raised (the order of /repo 4eb6f10: the handler is noted before the delivery). -/
+theorem settled_after_completion_cut (decls : List Decl) (d : Decl) (hd : d ∈ decls)
+    (hres : ∀ d' ∈ decls, d'.id = d.id → d'.gate.initial = true)
+    (m : Option Mem) (P : Store) (e : Event) (hde : e.deleted = false) (hsup : e.suppressed = false) (n : Nat)
+    (hinv : (d.id, n) ∈ (step decls m P e).invoked) (hfin : (e.exec d.id n).final = true) :
+    Settled d.id (cutAtDelivery decls m P e).mem := by
+  rw [(step_eq decls m P e hsup).1] at hinv
+  rw [cutAtDelivery_mem]
+  simp only [hde, Bool.false_eq_true, if_false]
+  refine ⟨_, rfl, ?_⟩
+  right
+  simp only [finalsOf, List.mem_append, List.mem_filter]
+  right
+  refine ⟨invoked_final_in_finals _ _ e.now e.now1 e.exec d.id n hinv hfin, ?_⟩
+  simp only [isInitial, List.any_eq_true]
+  exact ⟨d, hd, by simp [hres d hd rfl]⟩
+
+/-- THE SECOND CLAUSE WITH FAILING CYCLES, for either order of the bookkeeping, under one hypothesis: if the delivery of
+    the results of the pass in which a resume handler reached its final outcome did not raise (`hok`), the handler is never
+    invoked again for this object in this process — whatever the handlers return later, whichever later cycles are cut,
+    whichever patches are lost (the completing pass's own included). For ANY rule `raises`. (Before /repo 4eb6f10 this was
+    all that held: `uncopyable_result_old_order_witness`.) -/
+theorem completed_never_again_results (old : Bool) (raises : List ResultShape → Bool) (decls : List Decl) (d : Decl) (hd : d ∈ decls)
     (hres : ∀ d' ∈ decls, d'.id = d.id → d'.gate.initial = true)
     (m : Option Mem) (P : Store) (x : EventR) (hde : x.e.deleted = false) (n : Nat)
-    (hinv : (d.id, n) ∈ (stepWith raises decls m P x.e x.rs x.patchLost).invoked)
+    (hinv : (d.id, n) ∈ (stepWith old raises decls m P x.e x.rs x.patchLost).invoked)
     (hfin : (x.e.exec d.id n).final = true) (hok : raises x.rs = false)
     (rest : List EventR) (hdel : ∀ y ∈ rest, y.e.deleted = false) :
-    ∀ l ∈ runWith raises decls (stepWith raises decls m P x.e x.rs x.patchLost).mem
-            (stepWith raises decls m P x.e x.rs x.patchLost).P rest, ∀ k, (d.id, k) ∉ l := by
+    ∀ l ∈ runWith old raises decls (stepWith old raises decls m P x.e x.rs x.patchLost).mem
+            (stepWith old raises decls m P x.e x.rs x.patchLost).P rest, ∀ k, (d.id, k) ∉ l := by
   rw [stepWith_invoked] at hinv
-  have hset : Settled d.id (stepWith raises decls m P x.e x.rs x.patchLost).mem := by
-    rw [stepWith_mem_of_not_raises raises decls m P x.e x.rs x.patchLost hok]
+  have hset : Settled d.id (stepWith old raises decls m P x.e x.rs x.patchLost).mem := by
+    rw [stepWith_mem_of_not_raises old raises decls m P x.e x.rs x.patchLost hok]
     exact settled_after_completion decls d hd hres m P x.e hde n hinv hfin
-  generalize (stepWith raises decls m P x.e x.rs x.patchLost).mem = m' at hset
-  generalize (stepWith raises decls m P x.e x.rs x.patchLost).P = P'
+  generalize (stepWith old raises decls m P x.e x.rs x.patchLost).mem = m' at hset
+  generalize (stepWith old raises decls m P x.e x.rs x.patchLost).P = P'
   induction rest generalizing m' P' with
   | nil => intro l hl; simp [runWith] at hl
   | cons y rest ih =>
@@ -711,51 +737,91 @@ theorem completed_never_again_results (raises : List ResultShape → Bool) (decl
     rcases hl with rfl | hl
     · rw [stepWith_invoked]; exact settled_not_invoked decls d.id hres m' hset P' y.e k
     · exact ih (fun z hz => hdel z (by simp [hz])) _
-        (settled_preserved_with raises decls d.id m' hset P' y (hdel y (by simp))) _ l hl k
+        (settled_preserved_with old raises decls d.id m' hset P' y (hdel y (by simp))) _ l hl k
 
-/-- … for the code as it is: it is enough that every result of the completing pass is None, a mapping, or something
-    `copy.deepcopy` takes — in particular EVERY result JSON cannot write down but Python can copy (datetime, set, Decimal,
-    bytes, a view inside a dict): the patch fails on the wire, the handler is still not repeated. -/
-theorem completed_never_again_copyable (decls : List Decl) (d : Decl) (hd : d ∈ decls)
+/-- THE SECOND CLAUSE WITH FAILING CYCLES, UNGUARDED (the code as it is since /repo 4eb6f10; was FALSE before:
+    `uncopyable_result_old_order_witness`): for EVERY result the handlers of the completing pass return — copyable or not,
+    a mapping or not, JSON or not — and for ANY rule `raises` of what makes the delivery raise (so also for the seeded
+    variant C14f on this tree), a resume handler that reached its final outcome is never invoked again for this object in
+    this process: whatever the later events, results, cuts and lost patches are. -/
+theorem completed_never_again_any_result (raises : List ResultShape → Bool) (decls : List Decl) (d : Decl) (hd : d ∈ decls)
+    (hres : ∀ d' ∈ decls, d'.id = d.id → d'.gate.initial = true)
+    (m : Option Mem) (P : Store) (x : EventR) (hde : x.e.deleted = false) (n : Nat)
+    (hinv : (d.id, n) ∈ (stepWith false raises decls m P x.e x.rs x.patchLost).invoked)
+    (hfin : (x.e.exec d.id n).final = true)
+    (rest : List EventR) (hdel : ∀ y ∈ rest, y.e.deleted = false) :
+    ∀ l ∈ runWith false raises decls (stepWith false raises decls m P x.e x.rs x.patchLost).mem
+            (stepWith false raises decls m P x.e x.rs x.patchLost).P rest, ∀ k, (d.id, k) ∉ l := by
+  rw [stepWith_invoked] at hinv
+  have hset : Settled d.id (stepWith false raises decls m P x.e x.rs x.patchLost).mem := by
+    rcases stepWith_mem false raises decls m P x.e x.rs x.patchLost with h | ⟨h, hsup, _⟩
+    · rw [h]; exact settled_after_completion decls d hd hres m P x.e hde n hinv hfin
+    · rw [h]; exact settled_after_completion_cut decls d hd hres m P x.e hde hsup n hinv hfin
+  generalize (stepWith false raises decls m P x.e x.rs x.patchLost).mem = m' at hset
+  generalize (stepWith false raises decls m P x.e x.rs x.patchLost).P = P'
+  induction rest generalizing m' P' with
+  | nil => intro l hl; simp [runWith] at hl
+  | cons y rest ih =>
+    intro l hl k
+    simp only [runWith, List.mem_cons] at hl
+    rcases hl with rfl | hl
+    · rw [stepWith_invoked]; exact settled_not_invoked decls d.id hres m' hset P' y.e k
+    · exact ih (fun z hz => hdel z (by simp [hz])) _
+        (settled_preserved_with false raises decls d.id m' hset P' y (hdel y (by simp))) _ l hl k
+
+/-- … in particular for the code as it is (`stepR` / `runR`). -/
+theorem completed_never_again_any_result_run (decls : List Decl) (d : Decl) (hd : d ∈ decls)
     (hres : ∀ d' ∈ decls, d'.id = d.id → d'.gate.initial = true)
     (m : Option Mem) (P : Store) (x : EventR) (hde : x.e.deleted = false) (n : Nat)
     (hinv : (d.id, n) ∈ (stepR decls m P x.e x.rs x.patchLost).invoked)
     (hfin : (x.e.exec d.id n).final = true)
-    (hok : ∀ r ∈ x.rs, r.isNone = true ∨ r.isMapping = true ∨ r.copyable = true)
     (rest : List EventR) (hdel : ∀ y ∈ rest, y.e.deleted = false) :
     ∀ l ∈ runR decls (stepR decls m P x.e x.rs x.patchLost).mem (stepR decls m P x.e x.rs x.patchLost).P rest,
-      ∀ k, (d.id, k) ∉ l := by
-  refine completed_never_again_results deliveryRaises decls d hd hres m P x hde n hinv hfin ?_ rest hdel
-  unfold deliveryRaises
-  rw [List.any_eq_false]
-  intro r hr
-  rcases hok r hr with h | h | h <;> simp [h]
+      ∀ k, (d.id, k) ∉ l :=
+  completed_never_again_any_result deliveryRaises decls d hd hres m P x hde n hinv hfin rest hdel
 
-/-- The other direction, universally: a cycle cut before the bookkeeping is repeated IN FULL — the same handlers, the same
-    attempt numbers — by the same event seen again (a re-listing of the unchanged object), finished handlers included. -/
-theorem cut_before_memory_repeats (decls : List Decl) (m : Option Mem) (P : Store) (e : Event) (hde : e.deleted = false) :
-    (step decls (cutBeforeMemory decls m P e).mem (cutBeforeMemory decls m P e).P e).invoked = (step decls m P e).invoked := by
-  simp only [cutBeforeMemory, hde, Bool.false_eq_true, if_false]
+/-- REGRESSION, universally, about the order before /repo 4eb6f10: a cycle cut before ANY bookkeeping is repeated IN FULL —
+    the same handlers, the same attempt numbers — by the same event seen again, finished resuming handlers included. -/
+theorem cut_before_memory_repeats_old (decls : List Decl) (m : Option Mem) (P : Store) (e : Event) (hde : e.deleted = false) :
+    (step decls (cutBeforeMemoryOld decls m P e).mem (cutBeforeMemoryOld decls m P e).P e).invoked = (step decls m P e).invoked := by
+  simp only [cutBeforeMemoryOld, hde, Bool.false_eq_true, if_false]
   rw [step_recalled]
 
-/-- FALSE OF THE CODE (open finding F11): a resume handler that returns something that is not a mapping and that
-    `copy.deepcopy` rejects (a lock, a generator, a coroutine — the forgotten `await` —, an open file) completes, and
-    completes again at every later event of the object: the re-listing, the reconnect, the re-listing after that.
-    Replayed on the real code on every run (corpus/C14/F11_uncopyable_result.json). -/
-theorem uncopyable_result_witness :
+/-- What is still true of a cycle cut in the delivery (the code as it is): nothing of the pass reaches the object, so the
+    handlers that are NOT resuming ones — here the update handler `u`, run beside the resuming `r` for an object found
+    changed by the listing — are invoked again, with the same attempt number, by the same event seen again; the finished
+    resuming handler is not (at-most-once is promised for resume handlers only; repeating the others is C02/C03's matter). -/
+theorem cut_at_delivery_sibling_repeats_witness :
+    let e : Event :=
+      { byListing := true, deleted := false, marked := false, blocked := false, oldAbsent := false,
+        diffNonEmpty := true, suppressed := false, matchF := fun _ => true,
+        limits := fun _ => ⟨none, none⟩, lifecycle := .allAtOnce, now := 0, now1 := 0,
+        exec := fun _ _ => { final := true, delay := none, error := false, subrefs := [] } }
+    let lock : ResultShape := { isNone := false, isMapping := false, copyable := false, jsonRaw := false, jsonPatch := false }
+    runR [⟨"u", ⟨some .update, false, false⟩⟩, ⟨"r", ⟨none, true, false⟩⟩] none (fun _ => none)
+        [⟨e, [lock], false⟩, ⟨e, [lock], false⟩, ⟨e, [lock], false⟩]
+      = [[("u", 0), ("r", 0)], [("u", 0)], [("u", 0)]] := by decide
+
+/-- REGRESSION of the repaired finding F11 (the order before /repo 4eb6f10): a resume handler that returns something
+    that is not a mapping and that `copy.deepcopy` rejects (a lock, a generator, a coroutine — the forgotten `await`)
+    completed again at every later event of the object; with the order of the code as it is: once.
+    Replayed on the real code on every run (corpus/C14/F11_uncopyable_result.json: must pass now). -/
+theorem uncopyable_result_old_order_witness :
     let e : Event :=
       { byListing := true, deleted := false, marked := false, blocked := false, oldAbsent := false,
         diffNonEmpty := false, suppressed := false, matchF := fun _ => true,
         limits := fun _ => ⟨none, none⟩, lifecycle := .allAtOnce, now := 0, now1 := 0,
         exec := fun _ _ => { final := true, delay := none, error := false, subrefs := [] } }
     let lock : ResultShape := { isNone := false, isMapping := false, copyable := false, jsonRaw := false, jsonPatch := false }
-    runR [⟨"r", ⟨none, true, false⟩⟩] none (fun _ => none) [⟨e, [lock], false⟩, ⟨e, [lock], false⟩, ⟨e, [lock], false⟩]
-      = [[("r", 0)], [("r", 0)], [("r", 0)]] := by decide
+    let h : List EventR := [⟨e, [lock], false⟩, ⟨e, [lock], false⟩, ⟨e, [lock], false⟩]
+    runROld [⟨"r", ⟨none, true, false⟩⟩] none (fun _ => none) h = [[("r", 0)], [("r", 0)], [("r", 0)]] ∧
+    runR [⟨"r", ⟨none, true, false⟩⟩] none (fun _ => none) h = [[("r", 0)], [], []] := by decide
 
-/-- The seeded variant C14f (every result normalised through `json.loads(json.dumps(…))` in `deliver_results`): a result
-    that Python copies but JSON cannot write down (a dict with a datetime in it) repeats the finished handler at every
-    later event, where the code as it is runs it once (the patch fails on the wire, after the bookkeeping). -/
-theorem json_normalised_variant_witness :
+/-- The seeded variant C14f (every result normalised through `json.loads(json.dumps(…))` in `deliver_results`) on the tree
+    it was written for (before 4eb6f10): a result that Python copies but JSON cannot write down (a dict with a datetime in
+    it) repeated the finished handler at every later event, where that tree ran it once. On the code as it is the variant
+    no longer repeats it (`completed_never_again_any_result` holds for any `raises`): third conjunct. -/
+theorem json_normalised_variant_old_order_witness :
     let e : Event :=
       { byListing := true, deleted := false, marked := false, blocked := false, oldAbsent := false,
         diffNonEmpty := false, suppressed := false, matchF := fun _ => true,
@@ -763,10 +829,24 @@ theorem json_normalised_variant_witness :
         exec := fun _ _ => { final := true, delay := none, error := false, subrefs := [] } }
     let dt : ResultShape := { isNone := false, isMapping := true, copyable := true, jsonRaw := false, jsonPatch := false }
     let h : List EventR := [⟨e, [dt], false⟩, ⟨e, [dt], false⟩, ⟨e, [dt], false⟩]
-    runJson [⟨"r", ⟨none, true, false⟩⟩] none (fun _ => none) h = [[("r", 0)], [("r", 0)], [("r", 0)]] ∧
-    runR [⟨"r", ⟨none, true, false⟩⟩] none (fun _ => none) h = [[("r", 0)], [], []] := by decide
+    runJsonOld [⟨"r", ⟨none, true, false⟩⟩] none (fun _ => none) h = [[("r", 0)], [("r", 0)], [("r", 0)]] ∧
+    runROld [⟨"r", ⟨none, true, false⟩⟩] none (fun _ => none) h = [[("r", 0)], [], []] ∧
+    runJson [⟨"r", ⟨none, true, false⟩⟩] none (fun _ => none) h = [[("r", 0)], [], []] := by decide
 
--- non-vacuity of `completed_never_again_results` / `_copyable`: the datetime-in-a-dict result, patch lost on the wire
+-- non-vacuity of `completed_never_again_any_result`: the uncopyable result, cut in the delivery — the handler is noted
+example :
+    let e : Event :=
+      { byListing := true, deleted := false, marked := false, blocked := false, oldAbsent := false,
+        diffNonEmpty := false, suppressed := false, matchF := fun _ => true,
+        limits := fun _ => ⟨none, none⟩, lifecycle := .allAtOnce, now := 0, now1 := 0,
+        exec := fun _ _ => { final := true, delay := none, error := false, subrefs := [] } }
+    let lock : ResultShape := { isNone := false, isMapping := false, copyable := false, jsonRaw := false, jsonPatch := false }
+    let s := stepR [⟨"r", ⟨none, true, false⟩⟩] none (fun _ => none) e [lock] false
+    ("r", 0) ∈ s.invoked ∧ (e.exec "r" 0).final = true ∧ deliveryRaises [lock] = true ∧
+      s.mem = some { noticed := some true, fullyHandled := false, resumed := ["r"] } := by
+  refine ⟨by decide, by decide, by decide, by decide⟩
+
+-- non-vacuity of `completed_never_again_results`: the datetime-in-a-dict result, patch lost on the wire
 example :
     let e : Event :=
       { byListing := true, deleted := false, marked := false, blocked := false, oldAbsent := false,
